@@ -1,4 +1,194 @@
-import XgiModel.C20.Draw
+/-
+  C20 — layouts and drawings represent every node and edge faithfully: property theorems about the model
+  functions of XgiModel/C20/Draw.lean that the driver (XgiModel/C20/Drive.lean) runs.
+
+  What is proved, for every network, every position function and every `max_order`:
+  * `markers_spec`      one marker per node, at its position, in node order;
+  * `segments_spec`     a line for an edge iff it has two members, in edge order, joining its members' positions;
+  * `polygons_spec`     for every argsort oracle: one polygon per edge with 3 ≤ |e| ≤ max_order + 1, drawn by
+                        non-increasing size, vertex multiset = the members' positions (`ccw_sort_perm`);
+                        `stable_argsort_valid`: the default oracle is admissible;
+  * `draw_hyperedges_spec`, `draw_spec`: the composed calls succeed and consist of exactly these parts;
+  * `sc_plan_spec`      the plan of a simplicial complex;
+  * `barycenter_spec`, `edge_positions_spec`: |e| · barycenter = sum of the members' positions, keyed by edge ID;
+  * `layout_keys_spec`  every layout family returns exactly the node set (bipartite: and the edge IDs);
+  * `phantom_fresh`     phantom labels `max int label + 1 + k` are fresh, distinct, one per edge with ≥ 2 members.
+  Finite coordinates of the numeric layouts, matplotlib's rendering and the style-argument handling are runtime
+  behaviour exhibited by the correspondence check only.
+-/
+import XgiModel.C20.Lemmas
+
 namespace Xgi.C20
-theorem C20_stub : True := trivial
+open Xgi
+
+/-- one marker per node, at its position, in node order -/
+theorem markers_spec (h : Net) (pos : Pos) :
+    (markers h pos).length = h.nodes.length ∧
+    ∀ i (hi : i < h.nodes.length), (markers h pos)[i]? = some (pos h.nodes[i]) := by
+  refine ⟨by simp [markers], ?_⟩
+  intro i hi
+  simp [markers, List.getElem?_eq_getElem hi]
+
+/-- a segment for e iff |e| = 2 (one per such edge, in edge order); its endpoints are its two members' positions -/
+theorem segments_spec (h : Net) (pos : Pos) :
+    (segments h pos).map (·.e) = h.edges.filter (fun p => p.2.length = 2) ∧
+    (∀ p ∈ h.edges, (∃ s ∈ segments h pos, s.e = p) ↔ p.2.length = 2) ∧
+    ∀ s ∈ segments h pos, ∃ a b, s.e.2 = [a, b] ∧ s.a = pos a ∧ s.b = pos b := by
+  refine ⟨?_, ?_, ?_⟩
+  · simp [segments, dyads, segOf, List.map_map, Function.comp_def]
+  · intro p hp
+    constructor
+    · rintro ⟨s, hs, rfl⟩
+      simp only [segments, dyads, List.mem_map, List.mem_filter] at hs
+      obtain ⟨q, ⟨_, hl⟩, rfl⟩ := hs
+      simpa [segOf] using hl
+    · intro hl
+      exact ⟨segOf pos p, by simp [segments, dyads]; exact ⟨p.1, p.2, ⟨hp, hl⟩, rfl⟩, rfl⟩
+  · intro s hs
+    simp only [segments, dyads, List.mem_map, List.mem_filter] at hs
+    obtain ⟨p, ⟨_, hl⟩, rfl⟩ := hs
+    have hl : p.2.length = 2 := by simpa using hl
+    match hp : p.2, hl with
+    | [a, b], _ => exact ⟨a, b, by simp [segOf, hp]⟩
+
+/-- `_CCW_sort` only permutes the points -/
+theorem ccw_sort_perm (pts : List Pt) : (ccwSort pts).Perm pts := by
+  unfold ccwSort
+  split
+  · exact List.Perm.refl _
+  · exact List.mergeSort_perm _ _
+
+/-- for every admissible `np.argsort` result: the polygons are, up to order, exactly the edges with
+    3 ≤ |e| ≤ max_order + 1 (one each), they are drawn by non-increasing size, and the vertex multiset of each
+    is exactly its members' positions -/
+theorem polygons_spec (h : Net) (pos : Pos) (m : Int) (perm : List Nat)
+    (hp : isArgsort (sizesOf h m) perm = true) :
+    ((polygonsWith h pos m perm).map (·.e)).Perm
+        (h.edges.filter (fun p => 3 ≤ p.2.length ∧ (p.2.length : Int) - 1 ≤ m)) ∧
+    (polygonsWith h pos m perm).Pairwise (fun a b => b.e.2.length ≤ a.e.2.length) ∧
+    ∀ p ∈ polygonsWith h pos m perm, p.verts.Perm (p.e.2.map pos) := by
+  rw [isArgsort_iff] at hp
+  refine ⟨?_, polygonsWith_sorted h pos m perm hp.2, polygonsWith_verts h pos m perm⟩
+  have := polygonsWith_edges h pos m perm (by simpa [sizesOf] using hp.1)
+  simpa [polyEdges] using this
+
+/-- the default oracle (a stable sort) is an admissible argsort, so the default call never fails -/
+theorem stable_argsort_valid (sizes : List Nat) : isArgsort sizes (stableArgsort sizes) = true := by
+  rw [isArgsort_iff]
+  unfold stableArgsort
+  refine ⟨List.mergeSort_perm _ _, ?_⟩
+  have := List.pairwise_mergeSort (le := fun i j => decide (sizes.getD i 0 ≤ sizes.getD j 0))
+    (by intro a b c hab hbc; simp at *; omega) (by intro a b; simp; omega) (List.range sizes.length)
+  simpa using this
+
+/-- `draw_hyperedges`: with an admissible oracle (in particular the default one) the call succeeds and returns
+    exactly `segments` and `polygonsWith` for the maximum order in force (`max_edge_order(H)` when none is given) -/
+theorem draw_hyperedges_spec (h : Net) (pos : Pos) (mo : Option Int) (perm : Option (List Nat))
+    (hp : ∀ p, perm = some p → isArgsort (sizesOf h (mo.getD (maxOrder h))) p = true) :
+    ∃ p, isArgsort (sizesOf h (mo.getD (maxOrder h))) p = true ∧
+      drawHyperedges h pos mo perm = some (segments h pos, polygonsWith h pos (mo.getD (maxOrder h)) p) := by
+  unfold drawHyperedges
+  cases mo <;> cases perm
+  case none.none => exact ⟨_, stable_argsort_valid _, by simp [stable_argsort_valid]⟩
+  case some.none => exact ⟨_, stable_argsort_valid _, by simp [stable_argsort_valid]⟩
+  case none.some p =>
+    have h1 := hp p rfl
+    simp only [Option.getD_none] at h1 ⊢
+    exact ⟨p, h1, by simp [h1]⟩
+  case some.some m p =>
+    have h1 := hp p rfl
+    simp only [Option.getD_some] at h1 ⊢
+    exact ⟨p, h1, by simp [h1]⟩
+
+/-- `draw` of a hypergraph: succeeds; markers, segments and polygons are the three parts above, with
+    `max_order` falsy (None or 0) replaced by the maximum edge order -/
+theorem draw_spec (h : Net) (pos : Pos) (mo : Option Int) :
+    ∃ p, isArgsort (sizesOf h ((truthy mo).getD (maxOrder h))) p = true ∧
+      draw .hg h pos mo none = .ok { markers := markers h pos, segments := segments h pos,
+                                     polygons := polygonsWith h pos ((truthy mo).getD (maxOrder h)) p } := by
+  obtain ⟨p, hp, hd⟩ := draw_hyperedges_spec h pos (some ((truthy mo).getD (maxOrder h))) none (by simp)
+  refine ⟨p, by simpa using hp, ?_⟩
+  have hdraw : draw .hg h pos mo none =
+      (match drawHyperedges h pos (some ((truthy mo).getD (maxOrder h))) none with
+       | none => .error .argsort
+       | some r => .ok { markers := markers h pos, segments := r.1, polygons := r.2 }) := by
+    unfold draw
+    cases truthy mo <;> rfl
+  rw [hdraw, hd]
+  simp
+
+/-- |e| · barycenter(e) = Σ positions of the members of e (over ℚ, per coordinate) -/
+theorem barycenter_spec (pos : Pos) (ms : List PyId) (hne : ms ≠ []) :
+    ∃ c, barycenter pos ms = some c ∧
+      (ms.length : Rat) * c.1 = ((ms.map pos).map (·.1)).sum ∧
+      (ms.length : Rat) * c.2 = ((ms.map pos).map (·.2)).sum := by
+  unfold barycenter mean
+  have h0 : ms.map pos ≠ [] := by simpa using hne
+  have hl : ((ms.length : Nat) : Rat) ≠ 0 := by
+    have : 0 < ms.length := List.length_pos_iff.mpr hne
+    exact_mod_cast (Nat.pos_iff_ne_zero.mp this)
+  simp only [h0, if_false, List.length_map]
+  refine ⟨_, rfl, ?_, ?_⟩
+  · rw [← sumPts_fst]; field_simp
+  · rw [← sumPts_snd]; field_simp
+
+/-- `edge_positions_from_barycenters`: one entry per edge, keyed by its ID, in edge order, holding the barycenter -/
+theorem edge_positions_spec (h : Net) (pos : Pos) :
+    (edgePositions h pos).map (·.1) = h.edgeIds ∧
+    ∀ i (hi : i < h.edges.length), (edgePositions h pos)[i]? = some (h.edges[i].1, barycenter pos h.edges[i].2) := by
+  refine ⟨by simp [edgePositions, Net.edgeIds], ?_⟩
+  intro i hi
+  simp [edgePositions, List.getElem?_eq_getElem hi]
+
+/-- every layout family returns positions for exactly the nodes (the bipartite layout: and exactly the edges);
+    simplicial-complex inputs go through `from_max_simplices`, which keeps the node set -/
+theorem layout_keys_spec (f : Family) (c : Cls) (h : Net) :
+    layoutKeys f c h = some (h.nodes, if f = .bipartite then some h.edgeIds else none) := by
+  cases f
+  case barycenter =>
+    simp only [layoutKeys]
+    rw [restrictKeys_of_subset]
+    · simp [asHypergraph_nodes]
+    · intro k hk
+      unfold augmentedNodes
+      simp [hk]
+  all_goals simp [layoutKeys, asHypergraph_nodes]
+
+/-- the k-th phantom label is `max int label + 1 + k` (`0 + k` without int labels); it is not a node label,
+    phantom labels are pairwise different, one per edge with ≥ 2 members -/
+theorem phantom_fresh (h : Net) :
+    (∀ p ∈ phantomIds h, p ∉ h.nodes) ∧ (phantomIds h).Nodup ∧
+    (phantomIds h).length = (h.edges.filter (fun p => 2 ≤ p.2.length)).length ∧
+    ∀ k (hk : k < (phantomIds h).length), (phantomIds h)[k] = PyId.int (phantomStart h.nodes + k) := by
+  unfold phantomIds
+  refine ⟨?_, ?_, by simp, ?_⟩
+  · intro p hp hn
+    simp only [List.mem_map] at hp
+    obtain ⟨q, _, rfl⟩ := hp
+    have := lt_phantomStart _ _ hn
+    omega
+  · show List.Pairwise _ _
+    rw [List.pairwise_map]
+    refine (List.nodup_range (n := _)).imp ?_
+    intro a b hab hc
+    have := Atom.int.inj (PyId.atom.inj hc)
+    omega
+  · intro k hk
+    simp
+
+
+/-! ### non-vacuity -/
+
+def exNet : Net := { nodes := [.int 1, .int 2, .int 3, .str "a"],
+                     edges := [(.int 0, [.int 1, .int 2]), (.int 1, [.int 1, .int 2, .int 3]), (.int 2, [.str "a"]),
+                               (.int 3, [.int 2, .int 3, .str "a", .int 1])] }
+def exPos : Pos := fun k => if k = .int 1 then (0, 0) else if k = .int 2 then (3, 0) else if k = .int 3 then (3, 2) else (0, 5)
+
+example : (segments exNet exPos).map (fun s => (s.e.1, s.a, s.b)) = [(.int 0, (0, 0), (3, 0))] := by decide
+example : isArgsort (sizesOf exNet 3) [0, 1] = true := by decide
+example : ((polygonsWith exNet exPos 3 [0, 1]).map (·.e.1)) = [.int 3, .int 1] := by decide
+example : ((polygonsWith exNet exPos 2 [0]).map (·.e.1)) = [.int 1] := by decide
+example : phantomIds exNet = [.int 4, .int 5, .int 6] := by decide
+example : layoutKeys .bipartite .hg exNet = some (exNet.nodes, some [.int 0, .int 1, .int 2, .int 3]) := by decide
+
 end Xgi.C20
